@@ -58,6 +58,17 @@ Theorem C09_failfast : forall s c k, rerr s = true -> nth_error (calls s) c = So
 Proof. exact C09_failfast_l. Qed.
 Print Assumptions C09_failfast.
 
+(* when is an injected read failure NOT yet recorded ([rerr s = false]) in a quiescent state? Only when the read loop
+   cannot get to its next Read: it is holding an envelope for a registered call whose one-slot queue is full - a
+   stream whose caller does not read (head-of-line blocking; the transport's Read has not been called again, so nobody
+   has observed the failure). Until that caller reads, cancels or its context ends, every other call keeps waiting:
+   C09's "once reading has failed" starts when the read loop sees the error (see docs/COVERAGE.md, C09 and C11). *)
+Theorem C09_unrecorded_only_behind_a_full_queue : forall ls s, lrun init ls = Some s -> quiescent s = true ->
+  inbox_failed s = true -> rerr s = false ->
+  exists c e k, rl s = RLHold c e /\ nth_error (calls s) c = Some k /\ k_reg k = true /\ is_some (cbuf (k_chan k)) = true.
+Proof. exact C09_unrecorded_l. Qed.
+Print Assumptions C09_unrecorded_only_behind_a_full_queue.
+
 (* calls started afterwards, as ONE trace theorem: in every run, once the failure is recorded (state s1), a call
    whose ANew.. action comes later (index >= the number of calls issued so far) never registers, never takes an
    envelope, has no stream-loop, and the only thing it ever returns - in every later state s2, whatever the
@@ -139,3 +150,14 @@ Example C09_ex : exists ls s,
   In (EvUnaryRet 0 (UOk 8)) (log s) /\ In (EvUnaryRet 1 (UErr EClosed)) (log s) /\ In (EvRecvRet 2 (RErr EConn)) (log s) /\
   In (EvUnaryRet 3 (UErr EConn)) (log s) /\ In (EvUnaryRet 4 (UErr EConn)) (log s) /\ In (EvOpenRet 5 (Some EConn)) (log s).
 Proof. eexists. eexists. split. vm_compute. reflexivity. vm_compute. intuition. Qed.
+
+(* ... and such a state exists: a stream that does not read, three responses (one offered by its loop, one queued,
+   one held by the read loop), a unary call in flight, then the read fails: quiescent, failure not recorded, the
+   unary call still waiting *)
+Example C09_ex_unrecorded : exists ls s,
+  run_trace [ANewStream false; ANewUnary 7 false; ADeliver (mkEnv 1 (Some (MdOk 0)) None (Some 50) None false);
+             ADeliver (mkEnv 1 (Some (MdOk 0)) None (Some 51) None false); ADeliver (mkEnv 1 (Some (MdOk 0)) None (Some 52) None false);
+             AFailRead] = (ls, s) /\
+  lrun init ls = Some s /\ quiescent s = true /\ inbox_failed s = true /\ rerr s = false /\ rl_blocked s = true /\
+  (exists k, nth_error (calls s) 1 = Some k /\ k_pc k = PWait).
+Proof. eexists. eexists. split. vm_compute. reflexivity. vm_compute. intuition. eexists. intuition. Qed.
